@@ -73,7 +73,10 @@ func runC13(p *Prog, r *Report, tier string) {
 		r.Undecided("R-OWNER.worker-job", "anchor: (*AggregationProcess).Start", "pkg/intermediate/aggregate.go", "function not found")
 		return
 	}
-	calls := callsTo(start, "pkg/intermediate.createWorker")
+	var calls []ssa.Instruction
+	for f := range p.CallGraph().syncReach(start) { // Start itself or a helper it calls (e.g. a function literal / startWorkers)
+		calls = append(calls, callsTo(f, "pkg/intermediate.createWorker")...)
+	}
 	if len(calls) == 0 {
 		r.Undecided("R-OWNER.worker-job", "anchor: createWorker call in Start", "pkg/intermediate/aggregate.go", "Start no longer calls createWorker: the job run by the workers is unknown")
 	}
